@@ -32,6 +32,9 @@ class PathBudget(BaseException):
     """Exploration budget exhausted."""
 
 
+import os as _os
+
+_TRACE = bool(_os.environ.get("SX_TRACE"))
 U = z3.RealVal(1) / (2**53)  # unit round-off of IEEE double
 
 
@@ -409,6 +412,10 @@ class Engine:
                 except Abort:
                     outcome = "abort"
                 except EngineLimit as e:
+                    if _TRACE:
+                        import traceback
+
+                        traceback.print_exc()
                     outcome = ("limit", str(e)[:300])
                     self.limits.append((_dec_repr(self.decisions[: self.pos]), str(e)[:300]))
                 if outcome == "ok" and sample_models and self.path_obs:
